@@ -180,7 +180,8 @@ def run(R, escalate=False):
               "non-trivial = distinct (frame length, segmentation or stop point, outcome class)")
     mp = fw.ModelProc("C12")
     cases = []   # (kind, frame, script, tail)
-    bodies = [0, 1, 2, 3, 4, 20, 232, 233, 234, 255, 256, 257, 476, 500, 1000] + ([4000, 4002, 65511, 30000] if thorough else [4002])
+    # 32744 / 32745 straddle a 16-bit SIGNED reading of the length field (24 + 32744 = 32768); 65511 is the largest body
+    bodies = [0, 1, 2, 3, 4, 20, 232, 233, 234, 255, 256, 257, 476, 500, 1000] + ([4000, 4002, 65511, 30000, 32743, 32744, 32745, 32767, 32768, 40000] if thorough else [4002, 32767, 32768, 65511])
     bodies += [rng.randrange(0, 600) for _ in range(20 if thorough else 6)]
     for bl in bodies:
         f = frame(rng.randbytes(bl), rng)
@@ -196,6 +197,8 @@ def run(R, escalate=False):
             segs.append(rp)
         if not thorough and len(segs) > 60:
             segs = segs[:16] + rng.sample(segs[16:], 44)
+        if not thorough and n > 20000:
+            segs = rng.sample(segs, 6) + [[256] * (n // 256) + ([n % 256] if n % 256 else []), [n]]
         for sz in segs:
             for tail in ("timeout", "closed"):
                 cases.append(("full", f, [("c", c) for c in split(f, sz)], tail))
